@@ -572,7 +572,13 @@ class SharesManager(BaseManager):
             # with a changed `modified` parameter will also be removed meaning
             # their attributes will be reset and these files attributes need
             # to be rescanned
-            shared_directory.items -= (shared_directory.items ^ shared_items)
+            removed_items = shared_directory.items - shared_items
+            shared_directory.items -= removed_items
+
+            # Removed items can still be referenced elsewhere, don't rely on the
+            # weak references to drop them from the term map
+            for removed_item in removed_items:
+                self._remove_item_from_term_map(removed_item)
 
         self._build_term_map(shared_directory)
         self._cleanup_term_map()
@@ -897,6 +903,12 @@ class SharesManager(BaseManager):
             if term not in self._term_map:
                 self._term_map[term] = WeakSet()
             self._term_map[term].add(item)
+
+    def _remove_item_from_term_map(self, item: SharedItem):
+        path = (item.subdir + "/" + item.filename).lower()
+        for term in re.split(_QUERY_CLEAN_PATTERN, path):
+            if term in self._term_map:
+                self._term_map[term].discard(item)
 
     def _cleanup_term_map(self):
         self._term_map = {
